@@ -14,7 +14,8 @@ From Mpc Require Gen.State Base.StateExpected Base.StateCheck Base.StatePkgs.
      0 <= Bits < 2^31, arrays [N]T with 0 <= N < 2^31 and slices []T of such types),
      compound members recursively the same ([wf_io]),
    - NumGates = number of gates, input bits <= NumWires, every gate input in range and defined
-     before use, every wire assigned ([parse_sound]),
+     before use, every wire assigned, NO GATE WRITES AN INPUT WIRE ([parse_sound]; true of every
+     compiler output and generated circuit; since commit 407ba55 the parsers reject such gates),
    parsing the written bytes yields exactly [norm c] (everything except IsConcrete/MinBits/struct
    field detail/slice ArraySize of the types and Input1 of INV gates) and writing [norm c] gives
    the same bytes.  No restriction on name lengths relative to the bufio buffer. *)
@@ -24,7 +25,8 @@ Proof. exact mpclc_roundtrip. Qed.
 Print Assumptions C14_mpclc_roundtrip.
 
 (* FULL (Bristol round trip): for every circuit c with NumGates, NumWires <= MaxInt32,
-   0 <= Bits < 2^31 for every argument, at least one input bit, and the invariant [parse_sound],
+   0 <= Bits < 2^31 for every argument, at least one input bit, and the invariant [parse_sound]
+   (which includes: no gate writes an input wire),
    parsing the written text yields [bristol_norm c] (counts, argument sizes as uintN named
    NI<i>/NO<i>, the gates) and writing that gives the same bytes. *)
 Theorem C14_bristol_roundtrip :
@@ -44,7 +46,7 @@ Print Assumptions C14_type_roundtrip.
 (* FULL (soundness, MPCLC): for ALL byte strings, if ParseMPCLC returns a circuit then
    0 <= input bits <= NumWires, the number of gates equals the header's NumGates, every gate
    input is in range and defined before use (an input wire or the output of an earlier gate),
-   every gate output is in range, and every wire is assigned. *)
+   every gate output is in range and not an input wire, and every wire is assigned. *)
 Theorem C14_mpclc_parse_sound : forall bs c, ParseMPCLC bs = Ok c -> parse_sound c.
 Proof. exact (mpclc_sound true true). Qed.
 Print Assumptions C14_mpclc_parse_sound.
@@ -98,6 +100,17 @@ Theorem C14_marshal_format_roundtrip :
     (f = s_bristol /\ bs = MarshalBristol c /\ (wf_bristol c -> ParseBristol bs = Ok (bristol_norm c))).
 Proof. exact marshal_format_roundtrip. Qed.
 Print Assumptions C14_marshal_format_roundtrip.
+
+(* FULL (input wires are never overwritten; C01 and C04 rely on it): for ALL byte strings, a circuit
+   returned by ParseMPCLC or ParseBristol has no gate whose output id is below the number of input
+   wires — i.e. a file in which some gate writes an input wire (e.g. XOR w w w) is rejected by
+   both parsers (commit 407ba55: the check sits after the input-not-set checks and before the
+   wiresSeen range check of the gate's output; all three are errors). *)
+Theorem C14_parse_rejects_input_overwrite :
+  forall bs c, ParseMPCLC bs = Ok c \/ ParseBristol bs = Ok c ->
+    forall g, In g (c_gates c) -> (io_size (c_inputs c) <= Z.of_N (g_out g))%Z.
+Proof. exact parse_rejects_input_overwrite. Qed.
+Print Assumptions C14_parse_rejects_input_overwrite.
 
 (* STATE INVENTORY (finite obligation on the model regenerated from the source, checked by
    computation).  The struct fields and package-level variables of the Go packages this
